@@ -116,7 +116,15 @@ func TestC02(t *testing.T) {
 	}
 	var cnt c02Counters
 	rapid.Check(t, func(rt *rapid.T) {
-		h := resgen.Generate(resgen.FromRapid(rt), opts)
+		src := resgen.FromRapid(rt)
+		if src.Intn(5) < 2 {
+			// second family: programs that are not linear by construction; the checker decides
+			for i := 0; i < 4; i++ {
+				checkLoose(rt, rec, resgen.GenLooseCase(src))
+			}
+			return
+		}
+		h := resgen.Generate(src, opts)
 		checkC02(rt, rec, h, &cnt)
 	})
 	finishHealth(t, rec, &cnt)
